@@ -471,7 +471,7 @@ impl util::BitVec
                 for bit_index in 0..bits_per_digit
                 {
                     let i = span.offset.unwrap() + digit_index * bits_per_digit + bit_index;
-                    let bit = self.read_bit(i);
+                    let bit = i < span.offset.unwrap() + span.size && self.read_bit(i);
 
                     digit <<= 1;
                     digit |= if bit { 1 } else { 0 };
@@ -619,7 +619,7 @@ impl util::BitVec
                 for bit_index in 0..bits_per_digit
                 {
                     let i = span.offset.unwrap() + digit_index * bits_per_digit + bit_index;
-                    let bit = self.read_bit(i);
+                    let bit = i < span.offset.unwrap() + span.size && self.read_bit(i);
 
                     digit <<= 1;
                     digit |= if bit { 1 } else { 0 };
